@@ -2,7 +2,7 @@
    Statements only; proofs in Proofs/MxlProofs.v.  The tie/rest state machine of the exporter is modelled
    (Model/Mxl.v) and tied to Score.to_music21 by correspondence; its equality with C03's sounding notes is
    evaluated on the implementation by the oracle (not a theorem). *)
-From ML Require Import Model.Types gen.Tables Model.Pitch Model.Rel Model.Render Model.Mxl Proofs.MxlProofs.
+From ML Require Import Model.Types gen.Tables Model.Pitch Model.Rel Model.Render Model.Slice Model.Mxl Proofs.MxlProofs Proofs.MxlVoice.
 Open Scope Z_scope.
 
 (* every cell of the three spelling tables (3 modes x 12 tonics x 7 degrees) spells the pitch class of its degree,
@@ -15,6 +15,16 @@ Proof. exact spelling_tables_ok. Qed.
    spelled by pitch class), every chord - enharmonic spelling may differ, the sounding pitch never does *)
 Theorem C08_spelled_midi : forall c p, 0 <= tdeg (cton c) < 12 -> spelled_midi c p = Some (p + 60).
 Proof. exact spelled_midi_ok. Qed.
+
+(* every exported voice lasts exactly as long as the score, and so does every prefix of chords: whatever a part does (absent from
+   a chord, shorter than its chord, rests, ties in any state of the machine), the elements written for the next chord start at the
+   sum of the chord durations before it - where the renderer of C03 starts them.  (drum / pattern notes write nothing: excluded) *)
+Theorem C08_voice_lasts_the_score : forall s track out, writable_score s track -> voice_of s track = Some out -> mel_total out = score_dur s.
+Proof. exact voice_lasts_the_score. Qed.
+
+Theorem C08_voice_prefix : forall s1 track st out, writable_score s1 track ->
+  fold_left (chord_step track) s1 (Some (mkVS None None true true, [])) = Some (st, out) -> mel_total out = score_dur s1.
+Proof. exact voice_prefix_total. Qed.
 
 (* non-vacuity: a tied chain in the first chord, a rest, a continuation after the rest, a chord change *)
 Example C08_ex :
